@@ -207,10 +207,34 @@ Definition h_field_refs : str := [102;105;101;108;100;95;114;101;102;115].
 Definition h_field_name_esc : str := [115;101;108;102;46;95;101;115;99;97;112;101;95;108;105;116;101;114;97;108;40;102;105;101;108;100;95;110;97;109;101;41].
 Definition h_schema_upper_esc : str := [115;101;108;102;46;95;101;115;99;97;112;101;95;108;105;116;101;114;97;108;40;115;99;104;101;109;97;95;110;97;109;101;41].
 
+(* the wrapped hole of repo commit b75eb16:  ' '.join(schema.name.splitlines())  *)
+Definition h_schema_name_1line : str := [39;32;39;46;106;111;105;110;40;115;99;104;101;109;97;46;110;97;109;101;46;115;112;108;105;116;108;105;110;101;115;40;41;41].
+
+(* Python str.splitlines(): line boundaries are LF, CR, CR LF (ONE boundary), VT, FF, FS, GS, RS, NEL (U+0085), LS (U+2028),
+   PS (U+2029); no empty piece after a trailing boundary; the empty string has no piece *)
+Definition is_linebreak (c : N) : bool :=
+  N.eqb c 10 || N.eqb c 13 || N.eqb c 11 || N.eqb c 12 || N.eqb c 28 || N.eqb c 29 || N.eqb c 30
+  || N.eqb c 133 || N.eqb c 8232 || N.eqb c 8233.
+Fixpoint splitlines_go (cur : str) (s : str) : list str :=      (* cur: current piece, reversed *)
+  match s with
+  | [] => match cur with [] => [] | _ => [rev cur] end
+  | c :: s' =>
+      if N.eqb c 13 then
+        match s' with
+        | d :: s'' => if N.eqb d 10 then rev cur :: splitlines_go [] s'' else rev cur :: splitlines_go [] s'
+        | [] => rev cur :: splitlines_go [] s'
+        end
+      else if is_linebreak c then rev cur :: splitlines_go [] s'
+      else splitlines_go (c :: cur) s'
+  end.
+Definition py_splitlines (s : str) : list str := splitlines_go [] s.
+Definition one_line (s : str) : str := join [32] (py_splitlines s).
+
 (* a plain hole pastes the value; a wrapped hole pastes its _escape_literal image.  The model follows whatever the
    generated templates say (a tree that pastes the raw name is modelled as pasting the raw name). *)
 Definition hole_schema (s : schema) (h : str) : str :=
   if str_eqb h h_schema_name then sc_name s
+  else if str_eqb h h_schema_name_1line then one_line (sc_name s)
   else if str_eqb h h_schema_upper then py_upper (sc_name s) (sc_upper s)
   else if str_eqb h h_schema_upper_esc then escape_literal (py_upper (sc_name s) (sc_upper s))
   else if str_eqb h h_field_refs then join gbnf_schema_refs_sep (map rule_name_of (sc_fields s))
@@ -265,6 +289,17 @@ Definition tpl_has_hole (prog : list (str * list gpart)) (h : str) : bool :=
   existsb (fun e : str * list gpart =>
              existsb (fun p => match p with PLit _ => false | PHole x => str_eqb x h end) (snd e)) prog.
 
+(* ---- which name each route gives the schema (expressions read by the translator: gbnf_name_sources) ------------
+   Document.name: the envelope token value, or the parser's placeholder when the text has no envelope line;
+   extract_schema_from_document: doc.name if doc.name else the default;  compile_gbnf_from_meta: meta.get TYPE with
+   default;  emit_grammar_for_schema: its argument. *)
+Definition envelope_doc_name (env : option str) : str :=
+  match env with Some n => n | None => gbnf_parser_inferred_name end.
+Definition doc_schema_name (doc_name : str) : str :=
+  match doc_name with [] => gbnf_docroute_default_name | _ => doc_name end.
+Definition meta_schema_name (ty : option str) : str :=
+  match ty with Some t => t | None => gbnf_contract_default_type end.
+
 (* ---- CONTRACT route: FIELD[name]::chain  (regex _CONTRACT_FIELD_PATTERN + the strips) ----------------
    ASCII whitespace only (specs containing non-ASCII whitespace are out of model). The chain text is parsed
    by the implementation (ConstraintChain.parse is not modelled here): the harness supplies the parsed chain. *)
@@ -311,7 +346,7 @@ Proof. reflexivity. Qed.
 
 Definition known_hole (h : str) : bool :=
   str_in h [h_schema_name; h_schema_upper; h_rule_name; h_field_name; h_pattern; h_field_refs;
-            h_field_name_esc; h_schema_upper_esc].
+            h_field_name_esc; h_schema_upper_esc; h_schema_name_1line].
 Definition known_guard (g : str) : bool :=
   str_in g [g_always; g_per_field; g_has_fields; g_no_fields; g_envelope; g_no_envelope].
 
@@ -327,3 +362,6 @@ Lemma pin_escape_flags :
   gbnf_field_name_escaped = negb (tpl_has_hole gbnf_schema_prog h_field_name) /\
   gbnf_schema_name_escaped = negb (tpl_has_hole gbnf_schema_prog h_schema_upper).
 Proof. vm_compute. split; reflexivity. Qed.
+
+Lemma pin_header_flag : gbnf_header_name_one_line = negb (tpl_has_hole gbnf_schema_prog h_schema_name).
+Proof. vm_compute. reflexivity. Qed.
